@@ -1020,6 +1020,9 @@ class AnsiString:
         if isinstance(value, str):
             value = AnsiString(value)
 
+        if value is self:
+            value = self.copy()
+
         if isinstance(value, AnsiString):
             incoming_str = value._s
             incoming_fmts = value._fmts
